@@ -133,7 +133,18 @@ ENVS = {
     "base": [{"APP_BASE": "Sub1"}],
     "bdef": [{"APP_BDEF": "Base"}, {"APP_BDEF": "dsim.simtypes.Sub2"}],
 }
-STRS = ["a: 4\n", "a: [\n", "{}", "zz: 1", "a: 2\nl: [5]\n", "base: Sub1\n", "fit:\n  lr: 0.9\n", "bdef: Base\n", "bdef:\n  class_path: dsim.simtypes.Sub2\n", '{"base": {"init_args": {"n": 3}}}', '{"bdef": {"init_args": {"n": 3}}}', '{"model": {"base": {"init_args": {"n": 1}}}}', '{"dd": {"u": 4}}']
+STR = {
+    "_": ["a: 4\n", "a: [\n", "{}", "zz: 1"],
+    "l": ["a: 2\nl: [5]\n", '{"l": [1, "x"]}'],
+    "base": ["base: Sub1\n", '{"base": {"init_args": {"n": 3}}}', '{"base": {"init_args": {"child": "Base"}}}', "base: null\n"],
+    "bdef": ["bdef: Base\n", "bdef:\n  class_path: dsim.simtypes.Sub2\n", '{"bdef": {"init_args": {"n": 3}}}', '{"bdef": {"init_args": {"opts": {"b": 1.0}}}}'],
+    "model": ['{"model": {"base": {"init_args": {"n": 1}}}}', '{"model": {"name": "w"}}'],
+    "dd": ['{"dd": {"u": 4}}', '{"dd": {"w": [2.5]}}'],
+    "sub": ["fit:\n  lr: 0.9\n", '{"fit": {"model": {"init_args": {"width": 2}}}}'],
+    "lst": ['{"bases": [{"init_args": {"n": 2}}]}'],
+    "probe": ["probe: p:z\n"],
+}
+STRS = [x for v in STR.values() for x in v]
 FILE_ALTS = {
     "dflt.yaml": ["a: 9\n", "a: 11\n", "", "a: x\n", "a: [\n"],
     "c1.yaml": ["a: 5\n", "a: 6\n", "a: bad\n"],
@@ -186,7 +197,7 @@ def gen_op(rng, pi, feats):
     if c < 0.55:
         return {"p": pi, "kind": "obj", "obj": gen_obj(rng, feats)}
     if c < 0.61:
-        return {"p": pi, "kind": "str", "text": rng.choice(STRS + [json.dumps(gen_obj(rng, feats))])}
+        return {"p": pi, "kind": "str", "text": rng.choice(STR[rng.choice(_pool(STR, feats, rng))]) if rng.random() < 0.7 else json.dumps(gen_obj(rng, feats))}
     if c < 0.67:
         e = {}
         for _ in range(rng.choice([1, 1, 2])):
@@ -225,7 +236,7 @@ def generate(rng, tier):
     world = {
         "dirs": ["home", "run"],
         "files": {
-            "run/c1.yaml": "a: 5\n",
+            "run/c1.yaml": "a: 5\n" + ("base: Sub1\n" if rng.random() < 0.5 and all("base" in p["feats"] for p in parsers) else ""),
             "run/c2.yaml": "a: 2\n" + ("base:\n  class_path: dsim.simtypes.Sub1\n  init_args:\n    n: 2\n" if any("base" in p["feats"] for p in parsers) else "") + ("bdef: Base\n" if any("bdef" in p["feats"] for p in parsers) else ""),
             "run/bad.yaml": "a: [1\n",
             "dflt.yaml": rng.choice(["a: 9\n", "", "a: 9\n"]),
